@@ -1,3 +1,4 @@
+import LcdbModel.Props.TableProps
 import LcdbModel.Props.CrcProps
 import LcdbModel.Props.CrcTablesOk
 import LcdbModel.Props.FilterProps
